@@ -7,7 +7,7 @@ import WzVerif.Lemmas.FormLimits
 namespace Wz.Multipart
 open Wz
 
-variable {ep pr : Bytes} {lead : Bool}
+variable {nl : Nl} {ep pr : Bytes} {lead : Bool}
 
 /-! ### the fuel of `drain` is irrelevant once it suffices -/
 
@@ -501,23 +501,24 @@ theorem searchBlank_restrict {x c : Bytes} {s e : Nat} (h : searchBlank (x ++ c)
 
 def lfPre (lf : Bool) : Bytes := if lf then [10] else []
 
-theorem searchBlank_block_lf (lf : Bool) (lines : List Bytes) (Z : Bytes) (hne : lines ≠ [])
+theorem searchBlank_block_lf (nl : Nl) (lf : Bool) (lines : List Bytes) (Z : Bytes) (hne : lines ≠ [])
     (hok : ∀ l ∈ lines, LineOk l) :
-    searchBlank (lfPre lf ++ (joinCrlf lines ++ 13 :: 10 :: 13 :: 10 :: Z)) =
-      some ((lfPre lf).length + (joinCrlf lines).length, (lfPre lf).length + (joinCrlf lines).length + 4) := by
+    searchBlank (lfPre lf ++ (joinNl nl lines ++ (nl.bytes ++ (nl.bytes ++ Z)))) =
+      some ((lfPre lf).length + (joinNl nl lines).length,
+        (lfPre lf).length + (joinNl nl lines).length + 2 * nl.len) := by
   cases lf with
-  | false => simpa [lfPre] using searchBlank_block lines Z hne hok
+  | false => simpa [lfPre] using searchBlank_block nl lines Z hne hok
   | true =>
     cases lines with
     | nil => exact absurd rfl hne
     | cons l t =>
       have hl := hok l (by simp)
-      rcases joinCrlf_head t hl.1 with ⟨x, r, hx, hxe⟩
+      rcases joinNl_head nl t hl.1 with ⟨x, r, hx, hxe⟩
       have hxn : isNl x = false := by rw [hxe]; exact not_nl_of_not_space hl.2.2.1
-      have hb := searchBlank_block (l :: t) Z hne hok
+      have hb := searchBlank_block nl (l :: t) Z hne hok
       simp only [lfPre, if_true, List.cons_append, List.nil_append]
       rw [hx] at hb ⊢
-      have h0 : blankLen (10 :: (x :: r ++ 13 :: 10 :: 13 :: 10 :: Z)) = 0 := by
+      have h0 : blankLen (10 :: (x :: r ++ (nl.bytes ++ (nl.bytes ++ Z)))) = 0 := by
         simp [isNl] at hxn
         have h2 : ((10 : UInt8) == x) = false := by simp; exact fun e => hxn.1 e.symm
         simp [blankLen, List.isPrefixOf, h2]
@@ -533,10 +534,11 @@ theorem fold_lf {x : UInt8} (r : Bytes) (h : isBytesSpace x = false) :
 theorem splitLines_lf (rest : Bytes) : splitLines (10 :: rest) = [] :: splitLines rest := by
   simp [splitLines, splitLines.go]
 
-theorem parseHeaders_block_lf (lf : Bool) (hs : Headers) (hne : hs ≠ []) (hok : ∀ kv ∈ hs, HeaderOk kv) :
-    parseHeaders (lfPre lf ++ joinCrlf (hs.map lineOf)) = .ok hs := by
+theorem parseHeaders_block_lf (nl : Nl) (lf : Bool) (hs : Headers) (hne : hs ≠ [])
+    (hok : ∀ kv ∈ hs, HeaderOk kv) :
+    parseHeaders (lfPre lf ++ joinNl nl (hs.map lineOf)) = .ok hs := by
   cases lf with
-  | false => simpa [lfPre] using parseHeaders_block hs hok
+  | false => simpa [lfPre] using parseHeaders_block nl hs hok
   | true =>
     have hlines : ∀ l ∈ hs.map lineOf, LineOk l := by
       intro l hl
@@ -546,8 +548,8 @@ theorem parseHeaders_block_lf (lf : Bool) (hs : Headers) (hne : hs ≠ []) (hok 
     | nil => exact absurd rfl hne
     | cons kv t =>
       have hl := hlines (lineOf kv) (by simp)
-      rcases joinCrlf_head (t.map lineOf) hl.1 with ⟨x, r, hx, hxe⟩
-      have hb := parseHeaders_block (kv :: t) hok
+      rcases joinNl_head nl (t.map lineOf) hl.1 with ⟨x, r, hx, hxe⟩
+      have hb := parseHeaders_block nl (kv :: t) hok
       simp only [List.map_cons] at hx hb
       simp only [lfPre, if_true, List.cons_append, List.nil_append, List.map_cons]
       unfold parseHeaders at hb ⊢
@@ -561,17 +563,19 @@ theorem parseHeaders_block_lf (lf : Bool) (hs : Headers) (hne : hs ≠ []) (hok 
 
 /-! ### bodies with a preamble -/
 
-/-- the whole body: preamble bytes `pr`, then either `CRLF--boundary…` (`lead = true`) or — only
-without a preamble — `--boundary…` directly, as browsers send it (`lead = false`) -/
-def bodyOf (bnd ep pr : Bytes) (lead : Bool) (ps : List Part) : Bytes :=
-  pr ++ (if lead then encBody bnd ep ps else (encBody bnd ep ps).drop 2)
+/-- the whole body: preamble bytes `pr`, then either `NL--boundary…` (`lead = true`) or — only
+without a preamble — `--boundary…` directly, as browsers send it (`lead = false`); `nl` is the line
+break of the delimiter and header lines -/
+def bodyOf (nl : Nl) (bnd ep pr : Bytes) (lead : Bool) (ps : List Part) : Bytes :=
+  pr ++ (if lead then encBody nl bnd ep ps else (encBody nl bnd ep ps).drop nl.len)
 
 /-- the preamble does not contain `--boundary` (it may contain anything else, line breaks and dashes
-included); without the leading CRLF there is no preamble -/
-def PreOk (bnd pr : Bytes) (lead : Bool) : Prop :=
-  if lead then containsSub (delim bnd) pr = false else pr = []
+included) and, for bare-LF bodies, does not end in CR (which would merge with the LF of the first
+delimiter); without the leading line break there is no preamble -/
+def PreOk (nl : Nl) (bnd pr : Bytes) (lead : Bool) : Prop :=
+  if lead then containsSub (delim bnd) pr = false ∧ (nl = .lf → pr.getLast? ≠ some 13) else pr = []
 
-instance (bnd pr : Bytes) (lead : Bool) : Decidable (PreOk bnd pr lead) := by
+instance (nl : Nl) (bnd pr : Bytes) (lead : Bool) : Decidable (PreOk nl bnd pr lead) := by
   unfold PreOk; split <;> infer_instance
 
 /-! ### phases of the run over the encoder output -/
@@ -588,47 +592,33 @@ def Plain (bnd : Bytes) (d : Decoder) : Prop :=
 
 /-- data phases: where the delimiter that ends part `p` lies in what remains (`buf ++ fut`), what
 precedes it (after the bytes `pre` already released) and what follows it -/
-def DataInv (bnd ep : Bytes) (p : Part) (ps : List Part) (pre buf fut : Bytes) : Prop :=
+def DataInv (nl : Nl) (bnd ep : Bytes) (p : Part) (ps : List Part) (pre buf fut : Bytes) : Prop :=
   ∃ s0 e0, searchDelim bnd false (buf ++ fut) = some (s0, e0, ps.isEmpty) ∧
-    (pre ++ (buf ++ fut).take s0).drop 2 = p.payload ∧ (buf ++ fut).drop e0 = afterOf bnd ep ps
+    (pre ++ (buf ++ fut).take s0).drop nl.len = p.payload ∧ (buf ++ fut).drop e0 = afterOf nl bnd ep ps
 
-def Good (bnd ep pr : Bytes) (lead : Bool) (d : Decoder) (fut : Bytes) : Phase → Prop
+def Good (nl : Nl) (bnd ep pr : Bytes) (lead : Bool) (d : Decoder) (fut : Bytes) : Phase → Prop
   | .pre ps =>
-    Plain bnd d ∧ d.state = .preamble ∧ d.buffer ++ fut = bodyOf bnd ep pr lead ps ∧
+    Plain bnd d ∧ d.state = .preamble ∧ d.buffer ++ fut = bodyOf nl bnd ep pr lead ps ∧
       ∃ b0 c0, d.buffer = b0 ++ c0 ∧ searchDelim bnd true b0 = none ∧
         d.searchPos = b0.length - bnd.length - searchExtra
   | .hdr lf p ps =>
-    Plain bnd d ∧ d.state = .part ∧ d.buffer ++ fut = lfPre lf ++ afterOf bnd ep (p :: ps) ∧
+    Plain bnd d ∧ d.state = .part ∧ d.buffer ++ fut = lfPre lf ++ afterOf nl bnd ep (p :: ps) ∧
       ∃ b0 c0, d.buffer = b0 ++ c0 ∧ searchBlank b0 = none ∧ d.searchPos = b0.length - searchExtra
   | .dataS p ps =>
     Plain bnd d ∧ d.state = .dataStart ∧ d.searchPos = 0 ∧ 0 < lbLen d.buffer ∧
-      (∃ Z, d.buffer ++ fut = 13 :: 10 :: Z) ∧ DataInv bnd ep p ps [] d.buffer fut
+      lbLen (d.buffer ++ fut) = nl.len ∧ DataInv nl bnd ep p ps [] d.buffer fut
   | .dataM p ps E =>
     Plain bnd d ∧ d.state = .data ∧ d.searchPos = 0 ∧
-      ∃ pre, pre.drop 2 = E ∧ 2 ≤ pre.length ∧ DataInv bnd ep p ps pre d.buffer fut
+      ∃ pre, pre.drop nl.len = E ∧ nl.len ≤ pre.length ∧ DataInv nl bnd ep p ps pre d.buffer fut
   | .epi => Plain bnd d ∧ d.state = .epilogue
 
 /-- the single-shot facts about the data stretch of part `p` -/
-theorem dataOf_search {bnd : Bytes} (hb : BoundaryOk bnd) (p : Part) (ps : List Part) (hv : ValidPart bnd p) :
-    DataInv bnd ep p ps [] (dataOf bnd ep p ps) [] := by
-  have hf := validPart_facts hv
-  have hspec : dataSpec bnd true (dataOf bnd ep p ps) = some (p.payload, ps.isEmpty, afterOf bnd ep ps) := by
-    unfold dataOf
-    rw [encBody_eq]
-    cases hp : p.payload with
-    | nil =>
-      simp only [List.isEmpty_nil, if_true, List.nil_append]
-      exact dataSpec_encoded_empty (bnd := bnd) _ (afterDelim_tailOf bnd ps)
-    | cons a t =>
-      simp only [List.isEmpty_cons, Bool.false_eq_true, if_false]
-      have := dataSpec_encoded hb (a :: t) (tailOf bnd ep ps) (by rw [← hp]; exact hf.2.2.2.2.2)
-        (afterDelim_tailOf bnd ps)
-      simpa using this
-  have hlb : lbLen (dataOf bnd ep p ps) = 2 := by
-    rcases dataOf_blank bnd p ps with ⟨Z, hZ⟩
-    rw [hZ]; exact lbLen_crlf _
+theorem dataOf_search {bnd : Bytes} (hb : BoundaryOk bnd) (p : Part) (ps : List Part) (hv : ValidPart nl bnd p) :
+    DataInv nl bnd ep p ps [] (dataOf nl bnd ep p ps) [] := by
+  have hspec := dataSpec_dataOf (nl := nl) (ep := ep) hb p ps hv
+  have hlb := lbLen_dataOf (nl := nl) (ep := ep) p ps hv
   rw [dataSpec_true, hlb] at hspec
-  cases hs : searchDelim bnd false (dataOf bnd ep p ps) with
+  cases hs : searchDelim bnd false (dataOf nl bnd ep p ps) with
   | none => rw [hs] at hspec; simp at hspec
   | some v =>
     rcases v with ⟨s, e, f⟩
@@ -639,16 +629,16 @@ theorem dataOf_search {bnd : Bytes} (hb : BoundaryOk bnd) (p : Part) (ps : List 
     exact ⟨s, e, by simpa using hs, by simpa using hpay, by simpa using hrest⟩
 
 theorem afterOf_cons_blank (bnd : Bytes) (p : Part) (ps : List Part) :
-    ∃ Z, afterOf bnd ep (p :: ps) = hdrBlock (nameOf p) p ++ 13 :: 10 :: 13 :: 10 :: Z ∧
-      dataOf bnd ep p ps = 13 :: 10 :: Z := by
+    ∃ Z, afterOf nl bnd ep (p :: ps) = hdrBlock nl (nameOf p) p ++ (nl.bytes ++ (nl.bytes ++ Z)) ∧
+      dataOf nl bnd ep p ps = nl.bytes ++ Z := by
   rcases dataOf_blank bnd p ps with ⟨Z, hZ⟩
   exact ⟨Z, by rw [afterOf_cons, hZ], hZ⟩
 
 /-- one `next_event` in the PART phase, on any prefix of the stream -/
 theorem step_hdr {bnd : Bytes} (hb : BoundaryOk bnd) {d : Decoder} {fut : Bytes} {lf : Bool} {p : Part}
-    {ps : List Part} (hv : ValidPart bnd p) (hg : Good bnd ep pr lead d fut (.hdr lf p ps)) :
-    (∃ d', nextEvent d = .ok (.needData, d') ∧ Good bnd ep pr lead d' fut (.hdr lf p ps) ∧ fut ≠ []) ∨
-    (∃ d', nextEvent d = .ok (partHeadEvent (decodedPart p), d') ∧ Good bnd ep pr lead d' fut (.dataS p ps)) := by
+    {ps : List Part} (hv : ValidPart nl bnd p) (hg : Good nl bnd ep pr lead d fut (.hdr lf p ps)) :
+    (∃ d', nextEvent d = .ok (.needData, d') ∧ Good nl bnd ep pr lead d' fut (.hdr lf p ps) ∧ fut ≠ []) ∨
+    (∃ d', nextEvent d = .ok (partHeadEvent (decodedPart p), d') ∧ Good nl bnd ep pr lead d' fut (.dataS p ps)) := by
   rcases hg with ⟨⟨hbn, hcomp, hmm, hmp⟩, hst, hcat, b0, c0, hbc, hb0, hpos⟩
   have hf := validPart_facts hv
   have hok := allHeadersOk hv
@@ -658,36 +648,36 @@ theorem step_hdr {bnd : Bytes} (hb : BoundaryOk bnd) {d : Decoder} {fut : Bytes}
     exact lineOk_of_headerOk (hok kv hkv)
   rcases afterOf_cons_blank bnd p ps with ⟨Z, hZ, hdZ⟩
   -- the whole stream and its first blank line
-  have hW : d.buffer ++ fut = lfPre lf ++ (hdrBlock (nameOf p) p ++ 13 :: 10 :: 13 :: 10 :: Z) := by
+  have hW : d.buffer ++ fut = lfPre lf ++ (hdrBlock nl (nameOf p) p ++ (nl.bytes ++ (nl.bytes ++ Z))) := by
     rw [hcat, hZ]
-  have hsbW := searchBlank_block_lf lf _ Z (by simp) hlines
+  have hsbW := searchBlank_block_lf nl lf _ Z (by simp) hlines
   rw [← hdrBlock, ← hW] at hsbW
   -- the retained search position does not matter
   have hfrom : searchBlankFrom d.searchPos d.buffer = searchBlank d.buffer := by
     rw [hpos, hbc]; exact searchPos_irrelevant_blank_lemma hb0
-  let L := (lfPre lf).length + (hdrBlock (nameOf p) p).length
-  by_cases hlen : L + 4 ≤ d.buffer.length
+  let L := (lfPre lf).length + (hdrBlock nl (nameOf p) p).length
+  by_cases hlen : L + 2 * nl.len ≤ d.buffer.length
   · right
-    have hsb : searchBlank d.buffer = some (L, L + 4) := searchBlank_restrict hsbW hlen
-    have htake : d.buffer.take L = lfPre lf ++ hdrBlock (nameOf p) p := by
-      have : (d.buffer ++ fut).take L = lfPre lf ++ hdrBlock (nameOf p) p := by
+    have hsb : searchBlank d.buffer = some (L, L + 2 * nl.len) := searchBlank_restrict hsbW hlen
+    have htake : d.buffer.take L = lfPre lf ++ hdrBlock nl (nameOf p) p := by
+      have : (d.buffer ++ fut).take L = lfPre lf ++ hdrBlock nl (nameOf p) p := by
         rw [hW, ← List.append_assoc]; exact List.take_left' (by simp [L])
       rw [List.take_append_of_le_length (by omega)] at this
       exact this
-    have hparse : parseHeaders (lfPre lf ++ hdrBlock (nameOf p) p) =
+    have hparse : parseHeaders (lfPre lf ++ hdrBlock nl (nameOf p) p) =
         .ok (cdHeader (nameOf p) p.filename :: p.headers) :=
-      parseHeaders_block_lf lf _ (by simp) hok
-    have hdropW : (d.buffer ++ fut).drop (L + 2) = dataOf bnd ep p ps := by
+      parseHeaders_block_lf nl lf _ (by simp) hok
+    have hdropW : (d.buffer ++ fut).drop (L + nl.len) = dataOf nl bnd ep p ps := by
       rw [hW, ← List.append_assoc, hdZ]
-      have : L + 2 = 2 + (lfPre lf ++ hdrBlock (nameOf p) p).length := by simp [L]; omega
-      rw [this, drop_add_append]; rfl
-    have hdrop : d.buffer.drop (L + 2) ++ fut = dataOf bnd ep p ps := by
+      have : L + nl.len = nl.len + (lfPre lf ++ hdrBlock nl (nameOf p) p).length := by simp [L]; omega
+      rw [this, drop_add_append]; simp [Nl.len]
+    have hdrop : d.buffer.drop (L + nl.len) ++ fut = dataOf nl bnd ep p ps := by
       rw [← hdropW, List.drop_append_of_le_length (by omega)]
     have hopt := FormOptions.parseOptions_disposition_lemma (nameOf p) p.filename hf.1
       (fun x hx => (hf.2.2.1 x hx).1)
     have hnm := validPart_name hv
-    have hhalf : (L + (L + 4)) / 2 = L + 2 := by omega
-    let d' : Decoder := { d with buffer := d.buffer.drop (L + 2), state := .dataStart, searchPos := 0,
+    have hhalf : (L + (L + 2 * nl.len)) / 2 = L + nl.len := by omega
+    let d' : Decoder := { d with buffer := d.buffer.drop (L + nl.len), state := .dataStart, searchPos := 0,
                                  partsDecoded := d.partsDecoded + 1 }
     have hstep : step d = .ok (partHeadEvent (decodedPart p), d') := by
       unfold step
@@ -711,16 +701,20 @@ theorem step_hdr {bnd : Bytes} (hb : BoundaryOk bnd) {d : Decoder} {fut : Bytes}
       cases hfn : p.filename with
       | none => simp [partHeadEvent, decodedPart, hfn]
       | some x => simp [partHeadEvent, decodedPart, hfn]
-    · have hpre : d'.buffer ++ fut = 13 :: 10 :: Z := by simp only [d']; rw [hdrop, hdZ]
-      refine ⟨⟨hbn, hcomp, hmm, hmp⟩, rfl, rfl, ?_, ⟨Z, hpre⟩, ?_⟩
-      · -- the new buffer starts with CRLF
-        have h2 : 2 ≤ d'.buffer.length := by simp [d']; omega
-        match hbuf : d'.buffer, h2 with
-        | x :: y :: t, _ =>
-          rw [hbuf] at hpre
+    · have hpre : d'.buffer ++ fut = nl.bytes ++ Z := by simp only [d']; rw [hdrop, hdZ]
+      have hlbW : lbLen (d'.buffer ++ fut) = nl.len := by
+        simp only [d']; rw [hdrop]; exact lbLen_dataOf p ps hv
+      refine ⟨⟨hbn, hcomp, hmm, hmp⟩, rfl, rfl, ?_, hlbW, ?_⟩
+      · -- the new buffer starts with the line break
+        have hnp := nl.len_pos
+        have h1 : 1 ≤ d'.buffer.length := by simp [d']; omega
+        rcases nl.head_isNl Z with ⟨a, t, he, ha⟩
+        match hbuf : d'.buffer, h1 with
+        | x :: t', _ =>
+          rw [hbuf, he] at hpre
           simp at hpre
-          rw [hpre.1, hpre.2.1]; simp [lbLen]
-      · have := dataOf_search (ep := ep) hb p ps hv
+          exact lbLen_pos_iff.2 ⟨x, t', rfl, by rw [hpre.1]; exact ha⟩
+      · have := dataOf_search (nl := nl) (ep := ep) hb p ps hv
         rcases this with ⟨s0, e0, h1, h2, h3⟩
         simp only [List.append_nil] at h1 h2 h3
         exact ⟨s0, e0, by simp only [d']; rw [hdrop]; exact h1, by simp only [d']; rw [hdrop]; exact h2,
@@ -750,8 +744,8 @@ theorem step_hdr {bnd : Bytes} (hb : BoundaryOk bnd) {d : Decoder} {fut : Bytes}
     · intro hfe
       rw [hfe, List.append_nil] at hW
       have := congrArg List.length hW
-      simp at this
-      simp [L] at hlen
+      simp [Nl.len] at this
+      simp [L, Nl.len] at hlen
       omega
 
 theorem lbLen_of_crlf_prefix {b fut Z : Bytes} (h : b ++ fut = 13 :: 10 :: Z) (h2 : 2 ≤ b.length) :
@@ -761,7 +755,7 @@ theorem lbLen_of_crlf_prefix {b fut Z : Bytes} (h : b ++ fut = 13 :: 10 :: Z) (h
     simp at h
     rw [h.1, h.2.1]; simp [lbLen]
 
-/-! ### PREAMBLE: the first delimiter of the encoder output -/
+/-! ### PREAMBLE: the first delimiter of the body -/
 
 theorem matchDelimAt_true_of_false {bnd x : Bytes} {n : Nat} {f : Bool}
     (h : matchDelimAt bnd false x = some (n, f)) : matchDelimAt bnd true x = some (n, f) := by
@@ -773,65 +767,75 @@ theorem matchDelimAt_false_of_true {bnd x : Bytes} {n : Nat} {f : Bool} (hl : 0 
   rcases matchDelimAt_iff'.1 h with ⟨r, m, _, hd, hm, hn⟩
   exact matchDelimAt_iff.2 ⟨r, m, hl, hd, hm, hn⟩
 
+/-- the first byte of the line break; it is LF only for bare-LF bodies -/
+theorem Nl.head_spec (nl : Nl) (x : Bytes) :
+    ∃ a t, nl.bytes ++ x = a :: t ∧ isNl a = true ∧ (a = 10 → nl = .lf) := by
+  cases nl
+  · exact ⟨13, 10 :: x, rfl, by decide, by decide⟩
+  · exact ⟨10, x, rfl, by decide, fun _ => rfl⟩
+  · exact ⟨13, x, rfl, by decide, by decide⟩
+
+theorem searchDelim_none_of_nl_append {nl : Nl} {bnd b : Bytes} {o : Bool}
+    (h : searchDelim bnd o (nl.bytes ++ b) = none) : searchDelim bnd o b = none := by
+  cases nl with
+  | crlf => exact (searchDelim_cons_eq_none.1 (searchDelim_cons_eq_none.1 h).2).2
+  | lf => exact (searchDelim_cons_eq_none.1 h).2
+  | cr => exact (searchDelim_cons_eq_none.1 h).2
+
 /-- the whole body has its first delimiter at offset 0 -/
 theorem encBody_match (bnd : Bytes) (ps : List Part) :
-    ∃ m, matchDelimAt bnd false (encBody bnd ep ps) = some (2 + (bnd.length + 2) + m, ps.isEmpty) ∧
-      (encBody bnd ep ps).drop (2 + (bnd.length + 2) + m) = afterOf bnd ep ps := by
-  rcases matchTail_afterDelim (afterDelim_tailOf bnd ps) with ⟨m, hm, hdrop⟩
-  refine ⟨m, ?_, ?_⟩
+    ∃ m, matchDelimAt bnd false (encBody nl bnd ep ps) = some (nl.len + (bnd.length + 2) + m, ps.isEmpty) ∧
+      (encBody nl bnd ep ps).drop (nl.len + (bnd.length + 2) + m) = afterOf nl bnd ep ps ∧
+      (ps.isEmpty = false → m = nl.len) := by
+  have hl := nl.lbLen_delim bnd (tailOf nl bnd ep ps)
+  have hA := afterDelim_tailOf (nl := nl) (ep := ep) bnd ps
+  have key : ∃ m, matchTail (tailOf nl bnd ep ps) = some (m, ps.isEmpty) ∧
+      (tailOf nl bnd ep ps).drop m = afterOf nl bnd ep ps ∧ (ps.isEmpty = false → m = nl.len) := by
+    cases hf : ps.isEmpty with
+    | true =>
+      rw [hf] at hA
+      rcases matchTail_afterDelimNl hA with ⟨m, hm, hdrop⟩
+      exact ⟨m, hm, hdrop, by simp⟩
+    | false =>
+      rw [hf] at hA
+      have := matchTail_afterDelimNl_len hA
+      exact ⟨nl.len, this.1, this.2, fun _ => rfl⟩
+  rcases key with ⟨m, hm, hdrop, hmn⟩
+  refine ⟨m, ?_, ?_, hmn⟩
   · rw [encBody_eq]
     apply matchDelimAt_iff.2
-    exact ⟨tailOf bnd ep ps, m, by simp [lbLen_crlf], by simp [lbLen_crlf], hm, by simp [lbLen_crlf]⟩
+    exact ⟨tailOf nl bnd ep ps, m, by rw [hl]; exact nl.len_pos, by rw [hl]; simp [Nl.len], hm, by rw [hl]⟩
   · rw [encBody_eq]
-    have e : (13 :: 10 :: (delim bnd ++ tailOf bnd ep ps) : Bytes) = [13, 10] ++ (delim bnd ++ tailOf bnd ep ps) := rfl
-    have e2 : 2 + (bnd.length + 2) + m = (m + (delim bnd).length) + ([13, 10] : Bytes).length := by
-      simp [delim]; omega
-    rw [e, e2, drop_add_append, drop_add_append, hdrop]
+    have e2 : nl.len + (bnd.length + 2) + m = (m + (delim bnd).length) + nl.bytes.length := by
+      simp [delim, Nl.len]; omega
+    rw [e2, drop_add_append, drop_add_append, hdrop]
 
 /-- while the first delimiter is not complete in the buffer, `preamble_re` finds nothing at all -/
 theorem pre_no_match {bnd : Bytes} (hb : BoundaryOk bnd) {ps : List Part} {b fut : Bytes}
-    (hcat : b ++ fut = encBody bnd ep ps) (h0 : matchDelimAt bnd true b = none) :
-    searchDelim bnd true b = none ∧ b.length ≤ bnd.length + 5 := by
-  rcases encBody_match bnd ps with ⟨m, hM, _⟩
+    (hcat : b ++ fut = encBody nl bnd ep ps) (h0 : matchDelimAt bnd true b = none) :
+    searchDelim bnd true b = none := by
+  rcases encBody_match (nl := nl) (ep := ep) bnd ps with ⟨m, hM, _, hmn⟩
   have hMt := matchDelimAt_true_of_false hM
+  have hlW : lbLen (b ++ fut) = nl.len := by rw [hcat, encBody_eq]; exact nl.lbLen_delim bnd _
+  have hnp := nl.len_pos
+  have hn2 := nl.len_le_two
   -- the buffer is short
-  have hshort : b.length ≤ bnd.length + 5 := by
-    apply Nat.le_of_not_lt
-    intro hlt
+  have hshort : b.length < nl.len + (bnd.length + 2) + 2 := by
+    apply Nat.lt_of_not_le
+    intro hge
     rw [← hcat] at hMt
     cases hf : ps.isEmpty with
     | true =>
       rw [hf] at hMt
-      rcases matchDelimAt_restrict_true hMt (by omega) with ⟨n', hn'⟩
+      rcases matchDelimAt_restrict_true' hMt (by rw [hlW]; exact hge) with ⟨n', hn'⟩
       rw [h0] at hn'; simp at hn'
     | false =>
       rw [hf] at hMt
-      -- the non-closing first delimiter is `CRLF--boundary CRLF`: n + 6 bytes
-      have hm2 : m = 2 := by
-        cases ps with
-        | nil => simp at hf
-        | cons p ps =>
-          rcases hdrBlock_head (nameOf p) p with ⟨r, hr⟩
-          have ht : tailOf bnd ep (p :: ps) = 13 :: 10 :: 67 :: (r ++ 13 :: 10 ::
-              ((if p.payload.isEmpty then [] else 13 :: 10 :: p.payload) ++ encBody bnd ep ps)) := by
-            simp [tailOf, hr]
-          have hmt : matchTail (tailOf bnd ep (p :: ps)) = some (2, false) := by
-            rw [ht]; apply matchTail_false_iff.2
-            exact ⟨[], 13, _, rfl, by simp, by decide, by simp [lbLen_crlf]⟩
-          rw [← hcat] at hM
-          rcases matchDelimAt_iff.1 hM with ⟨r', m', _, hd, hm', hn⟩
-          rw [hcat, encBody_eq] at hd hn
-          simp [lbLen_crlf] at hd hn
-          have : r' = tailOf bnd ep (p :: ps) := hd.symm
-          rw [this, hmt] at hm'
-          simp at hm'
-          omega
+      have hm2 := hmn hf
       subst hm2
       have := matchDelimAt_restrict_false hMt (by omega)
       rw [h0] at this; simp at this
-  refine ⟨?_, hshort⟩
   -- no position of the buffer carries a match
-  have hpre : b <+: encBody bnd ep ps := ⟨fut, hcat⟩
   have hall : ∀ j, matchDelimAt bnd true (b.drop j) = none := by
     intro j
     cases hx : matchDelimAt bnd true (b.drop j) with
@@ -848,9 +852,11 @@ theorem pre_no_match {bnd : Bytes} (hb : BoundaryOk bnd) {ps : List Part} {b fut
         | some w =>
           rcases w with ⟨s', e', f'⟩
           rcases searchDelim_append_stable hb hs fut with ⟨e2, hst, _⟩
-          have hS0 : searchDelim bnd false (encBody bnd ep ps) =
-              some (0, 2 + (bnd.length + 2) + m, ps.isEmpty) := by
+          have hS0 : searchDelim bnd false (encBody nl bnd ep ps) =
+              some (0, nl.len + (bnd.length + 2) + m, ps.isEmpty) := by
             rw [encBody_eq] at hM ⊢
+            rcases nl.head_isNl (delim bnd ++ tailOf nl bnd ep ps) with ⟨a, t, he, _⟩
+            rw [he] at hM ⊢
             exact searchDelim_cons_some hM
           rw [hcat, hS0] at hst
           simp only [Option.some.injEq, Prod.mk.injEq] at hst
@@ -861,54 +867,53 @@ theorem pre_no_match {bnd : Bytes} (hb : BoundaryOk bnd) {ps : List Part} {b fut
       · have hl0 : lbLen (b.drop j) = 0 := by omega
         rcases matchDelimAt_iff'.1 hx with ⟨r, m1, _, hd, hm1, _⟩
         rw [hl0, List.drop_zero] at hd
-        -- b.drop j = delim ++ r
         have hjlen : (b.drop j).length = b.length - j := by simp
         have hdl : (delim bnd).length + r.length = b.length - j := by
           rw [← hjlen, hd]; simp
         rw [delim_length] at hdl
-        have hj3 : j ≤ 3 := by omega
-        match j, hj3 with
-        | 0, _ => simp only [List.drop_zero] at hx; rw [h0] at hx; simp at hx
-        | 1, _ =>
-          -- byte 1 of the body is LF
-          have : b.drop 1 <+: (encBody bnd ep ps).drop 1 := by
-            rcases hpre with ⟨t, ht⟩
-            refine ⟨t, ?_⟩
-            rw [← ht, List.drop_append_of_le_length (by omega)]
-          rw [encBody_eq, hd] at this
-          simp only [List.drop_succ_cons, List.drop_zero] at this
-          rcases this with ⟨t, ht⟩
-          simp [delim] at ht
-        | 2, _ =>
-          -- then the buffer itself matches at 0
-          have hb2 : b = 13 :: 10 :: (delim bnd ++ r) := by
-            have h2 : 2 ≤ b.length := by omega
-            have htake : b.take 2 = [13, 10] := by
-              have : b.take 2 <+: (encBody bnd ep ps) := List.IsPrefix.trans (List.take_prefix 2 b) hpre
-              rw [encBody_eq] at this
-              rcases this with ⟨t, ht⟩
-              have hl2 : (b.take 2).length = 2 := by simp [Nat.min_eq_left h2]
-              match hbt : b.take 2, hl2 with
-              | [x, y], _ => rw [hbt] at ht; simp at ht; rw [ht.1, ht.2.1]
-            rw [← List.take_append_drop 2 b, htake, hd]; rfl
-          have : matchDelimAt bnd true b = some (2 + (bnd.length + 2) + m1, f1) := by
-            rw [hb2]
-            exact matchDelimAt_iff'.2 ⟨r, m1, by simp, by simp [lbLen_crlf], hm1, by simp [lbLen_crlf]⟩
-          rw [h0] at this; simp at this
-        | 3, _ =>
-          have hr0 : r = [] := by
-            have : r.length = 0 := by omega
-            exact List.eq_nil_of_length_eq_zero this
-          rw [hr0] at hm1
-          simp [matchTail, lbLen] at hm1
+        by_cases hj1 : j < nl.len
+        · -- inside the line break: offset 0 is excluded by `h0`, offset 1 of CRLF is LF, not `-`
+          cases j with
+          | zero => simp only [List.drop_zero] at hx; rw [h0] at hx; simp at hx
+          | succ j' =>
+            have hpre1 : b.drop (j' + 1) <+: (encBody nl bnd ep ps).drop (j' + 1) := by
+              refine ⟨fut, ?_⟩
+              rw [← hcat, List.drop_append_of_le_length (by omega)]
+            rw [encBody_eq, hd] at hpre1
+            rcases hpre1 with ⟨t, ht⟩
+            cases nl with
+            | lf => simp [Nl.len, Nl.bytes] at hj1
+            | cr => simp [Nl.len, Nl.bytes] at hj1
+            | crlf =>
+              have hj' : j' = 0 := by simp [Nl.len, Nl.bytes] at hj1; omega
+              subst hj'
+              simp [Nl.bytes, delim] at ht
+        · by_cases hj2 : j = nl.len
+          · -- then the buffer itself matches at 0
+            subst hj2
+            have hbl : nl.len ≤ b.length := by omega
+            have htake : b.take nl.len = nl.bytes := by
+              have : (b ++ fut).take nl.len = nl.bytes := by rw [hcat, encBody_eq]; simp [Nl.len]
+              rwa [List.take_append_of_le_length hbl] at this
+            have hb2 : b = nl.bytes ++ (delim bnd ++ r) := by
+              rw [← List.take_append_drop nl.len b, htake, hd]
+            have : matchDelimAt bnd true b = some (nl.len + (bnd.length + 2) + m1, f1) := by
+              rw [hb2]
+              have hl2 := nl.lbLen_delim bnd r
+              exact matchDelimAt_iff'.2 ⟨r, m1, by simp, by rw [hl2]; simp [Nl.len], hm1, by rw [hl2]⟩
+            rw [h0] at this; simp at this
+          · -- nothing is left for the rest of the delimiter line
+            have hr0 : r = [] := List.eq_nil_of_length_eq_zero (by omega)
+            rw [hr0] at hm1
+            simp [matchTail, lbLen] at hm1
   have := searchDelim_skip (bnd := bnd) (o := true) b b.length (fun j _ => hall j)
   rw [this]
   simp [searchDelim]
 
 /-- what comes after the delimiter that ends a part -/
-def GoodNext (bnd ep pr : Bytes) (lead : Bool) (d : Decoder) (fut : Bytes) : List Part → Prop
-  | [] => Good bnd ep pr lead d fut .epi
-  | p :: ps => ∃ lf, Good bnd ep pr lead d fut (.hdr lf p ps)
+def GoodNext (nl : Nl) (bnd ep pr : Bytes) (lead : Bool) (d : Decoder) (fut : Bytes) : List Part → Prop
+  | [] => Good nl bnd ep pr lead d fut .epi
+  | p :: ps => ∃ lf, Good nl bnd ep pr lead d fut (.hdr lf p ps)
 
 /-- anchored `preamble_re` matches persist under extension -/
 theorem matchDelimAt_true_append {bnd x : Bytes} {n : Nat} {f : Bool} (c : Bytes)
@@ -924,12 +929,13 @@ theorem matchDelimAt_true_append {bnd x : Bytes} {n : Nat} {f : Bool} (c : Bytes
   refine ⟨_, matchDelimAt_iff'.2 ⟨r ++ c, m', by simp, ?_, hm', rfl⟩⟩
   rw [hlb, List.drop_append_of_le_length (lbLen_le_length x), hd]; simp
 
-/-- `preamble_re` finds nothing that starts inside a preamble without `--boundary` -/
-theorem no_match_in_pre {bnd : Bytes} (hb : BoundaryOk bnd) {pr : Bytes} (Y : Bytes)
-    (h : containsSub (delim bnd) pr = false) :
-    ∀ j, j < pr.length → matchDelimAt bnd true ((pr ++ 13 :: Y).drop j) = none := by
+/-- `preamble_re` finds nothing that starts inside a preamble without `--boundary` (a preamble that
+ends in CR would merge with a bare-LF delimiter, hence `hl`) -/
+theorem no_match_in_pre {bnd : Bytes} (hb : BoundaryOk bnd) {pr : Bytes} {c : UInt8} (Y : Bytes)
+    (hc : isNl c = true) (h : containsSub (delim bnd) pr = false) (hl : c = 10 → pr.getLast? ≠ some 13) :
+    ∀ j, j < pr.length → matchDelimAt bnd true ((pr ++ c :: Y).drop j) = none := by
   intro j hj
-  cases hx : matchDelimAt bnd true ((pr ++ 13 :: Y).drop j) with
+  cases hx : matchDelimAt bnd true ((pr ++ c :: Y).drop j) with
   | none => rfl
   | some v =>
     exfalso
@@ -938,49 +944,58 @@ theorem no_match_in_pre {bnd : Bytes} (hb : BoundaryOk bnd) {pr : Bytes} (Y : By
     rcases matchDelimAt_iff'.1 hx with ⟨r, m, _, hd, _, _⟩
     have hu : 0 < (pr.drop j).length := by simp; omega
     -- the leading line break (if any) lies inside the preamble
-    have hlb : lbLen (pr.drop j ++ 13 :: Y) ≤ (pr.drop j).length := by
+    have hlb : lbLen (pr.drop j ++ c :: Y) ≤ (pr.drop j).length := by
       match hq : pr.drop j, hu with
       | [a], _ =>
         simp only [List.singleton_append, List.length_singleton]
         by_cases ha : a = 13
-        · subst ha; rw [lbLen_cr_not_lf Y (by decide)]; omega
+        · subst ha
+          have hc10 : c ≠ 10 := by
+            intro e
+            have hg := List.getLast?_drop (l := pr) (i := j)
+            rw [hq] at hg
+            simp [Nat.not_le.2 hj] at hg
+            exact hl e hg.symm
+          rw [lbLen_cr_not_lf Y hc10]; omega
         · by_cases ha2 : a = 10
           · subst ha2; rw [lbLen_lf]; omega
           · rw [lbLen_cons_not_nl (by simp [isNl, ha, ha2])]; omega
       | a :: b :: t, _ =>
-        have := lbLen_le_two ((a :: b :: t) ++ 13 :: Y)
+        have := lbLen_le_two ((a :: b :: t) ++ c :: Y)
         simp at this ⊢; omega
     rw [List.drop_append_of_le_length hlb] at hd
-    have hp : (delim bnd).isPrefixOf ((pr.drop j).drop (lbLen (pr.drop j ++ 13 :: Y)) ++ 13 :: Y) = true := by
+    have hp : (delim bnd).isPrefixOf ((pr.drop j).drop (lbLen (pr.drop j ++ c :: Y)) ++ c :: Y) = true := by
       rw [hd, List.isPrefixOf_iff_prefix]; exact List.prefix_append _ _
-    rw [isPrefixOf_append_nl _ Y (delim_no_nl hb) (by decide), List.drop_drop] at hp
+    rw [isPrefixOf_append_nl _ Y (delim_no_nl hb) hc, List.drop_drop] at hp
     have : containsSub (delim bnd) pr = true := by
-      rw [← List.take_append_drop (j + lbLen (pr.drop j ++ 13 :: Y)) pr]
+      rw [← List.take_append_drop (j + lbLen (pr.drop j ++ c :: Y)) pr]
       exact containsSub_append_left _ (containsSub_of_prefix hp)
     rw [h] at this; simp at this
 
-/-- the body from `CRLF--boundary` on: what `preamble_re` anchored at its start says about a prefix -/
-theorem crlf_core {bnd : Bytes} (hb : BoundaryOk bnd) {ps : List Part} {b fut : Bytes}
-    (hcat : b ++ fut = encBody bnd ep ps) :
+/-- the body from `NL--boundary` on: what `preamble_re` anchored at its start says about a prefix -/
+theorem first_delim_core {bnd : Bytes} (hb : BoundaryOk bnd) {ps : List Part} {b fut : Bytes}
+    (hcat : b ++ fut = encBody nl bnd ep ps) :
     (matchDelimAt bnd true b = none → searchDelim bnd true b = none ∧ fut ≠ []) ∧
     (∀ e f, matchDelimAt bnd true b = some (e, f) →
       f = ps.isEmpty ∧ 0 < e ∧ e ≤ b.length ∧ (f = false → e ≤ bnd.length + 6) ∧
-      (f = false → ∃ lf, b.drop e ++ fut = lfPre lf ++ afterOf bnd ep ps)) := by
-  rcases encBody_match (ep := ep) bnd ps with ⟨m, hM, hMdrop⟩
+      (f = false → ∃ lf, b.drop e ++ fut = lfPre lf ++ afterOf nl bnd ep ps)) := by
+  rcases encBody_match (nl := nl) (ep := ep) bnd ps with ⟨m, hM, hMdrop, hmn⟩
   constructor
   · intro h0
-    refine ⟨(pre_no_match hb hcat h0).1, ?_⟩
+    refine ⟨pre_no_match hb hcat h0, ?_⟩
     intro hfe
     rw [hfe, List.append_nil] at hcat
     rw [hcat, matchDelimAt_true_of_false hM] at h0; simp at h0
   · intro e f h0
     have hbnd0 := matchDelimAt_bounds_any h0
     have hlb : 0 < lbLen b := by
-      have h2 : 2 ≤ b.length := by
-        rcases matchDelimAt_iff'.1 h0 with ⟨r, m1, _, hd, _, hn⟩
-        have := lbLen_le_length b
-        omega
-      rw [lbLen_of_crlf_prefix (Z := delim bnd ++ tailOf bnd ep ps) (by rw [hcat, encBody_eq]) h2]; omega
+      rcases nl.head_isNl (delim bnd ++ tailOf nl bnd ep ps) with ⟨a, t, he, ha⟩
+      cases b with
+      | nil => simp at hbnd0; omega
+      | cons x b' =>
+        rw [encBody_eq, he] at hcat
+        simp at hcat
+        exact lbLen_pos_iff.2 ⟨x, b', rfl, by rw [hcat.1]; exact ha⟩
     have h0f := matchDelimAt_false_of_true hlb h0
     rcases matchDelimAt_append fut h0f with ⟨e', he', hrel⟩
     rw [hcat, hM] at he'
@@ -988,22 +1003,11 @@ theorem crlf_core {bnd : Bytes} (hb : BoundaryOk bnd) {ps : List Part} {b fut : 
     rcases he' with ⟨he', hF⟩
     refine ⟨hF.symm, hbnd0.1, hbnd0.2, ?_, ?_⟩
     · intro hf
-      -- a non-closing first delimiter is `CRLF--boundary CRLF`
+      -- a non-closing first delimiter is `NL--boundary NL`
       subst hf
-      cases ps with
-      | nil => simp at hF
-      | cons p ps =>
-        rcases hdrBlock_head (nameOf p) p with ⟨r, hr⟩
-        have hmt : matchTail (tailOf bnd ep (p :: ps)) = some (2, false) := by
-          simp only [tailOf, hr]
-          apply matchTail_false_iff.2
-          exact ⟨[], 13, _, rfl, by simp, by decide, by simp [lbLen_crlf]⟩
-        rcases matchDelimAt_iff.1 hM with ⟨r', m', _, hd, hm', hn⟩
-        rw [encBody_eq] at hd hn
-        simp [lbLen_crlf] at hd hn
-        rw [← hd, hmt] at hm'
-        simp at hm'
-        rcases hrel rfl with h1 | ⟨h1, _, _⟩ <;> omega
+      have hm2 := hmn hF
+      have := nl.len_le_two
+      rcases hrel rfl with h1 | ⟨h1, _, _⟩ <;> omega
     · intro hf
       subst hf
       rcases hrel rfl with heq | ⟨heq, hlen, c', hc⟩
@@ -1020,17 +1024,19 @@ theorem crlf_core {bnd : Bytes} (hb : BoundaryOk bnd) {ps : List Part} {b fut : 
         rw [this]; rfl
 
 /-- **the first delimiter of a body with preamble**, seen through any prefix of the body -/
-theorem pre_search {bnd : Bytes} (hb : BoundaryOk bnd) (hpre : PreOk bnd pr lead) {ps : List Part}
-    {b fut : Bytes} (hcat : b ++ fut = bodyOf bnd ep pr lead ps) :
+theorem pre_search {bnd : Bytes} (hb : BoundaryOk bnd) (hpre : PreOk nl bnd pr lead) {ps : List Part}
+    {b fut : Bytes} (hcat : b ++ fut = bodyOf nl bnd ep pr lead ps) :
     (searchDelim bnd true b = none ∧ fut ≠ []) ∨
     (∃ e f, searchDelim bnd true b = some (pr.length, e, f) ∧ f = ps.isEmpty ∧ pr.length < e ∧
       e ≤ b.length ∧ (f = false → e - pr.length ≤ bnd.length + 6) ∧
-      (f = false → ∃ lf, b.drop e ++ fut = lfPre lf ++ afterOf bnd ep ps)) := by
+      (f = false → ∃ lf, b.drop e ++ fut = lfPre lf ++ afterOf nl bnd ep ps)) := by
+  have hnp : 0 < nl.bytes.length := nl.len_pos
   cases lead with
   | true =>
     simp only [PreOk, if_true] at hpre
     simp only [bodyOf, if_true] at hcat
-    have hY : encBody bnd ep ps = 13 :: 10 :: (delim bnd ++ tailOf bnd ep ps) := encBody_eq bnd ps
+    rcases nl.head_spec (delim bnd ++ tailOf nl bnd ep ps) with ⟨c, Y, hcY, hcn, hc10⟩
+    have hY : encBody nl bnd ep ps = c :: Y := by rw [encBody_eq, hcY]
     -- nothing matches at a position inside the preamble, in the buffer or in the body
     have hnone : ∀ j, j < pr.length → matchDelimAt bnd true (b.drop j) = none := by
       intro j hj
@@ -1045,7 +1051,7 @@ theorem pre_search {bnd : Bytes} (hb : BoundaryOk bnd) (hpre : PreOk bnd pr lead
           simp [matchDelimAt, lbLen] at hx
         rcases matchDelimAt_true_append fut hx with ⟨n', hn'⟩
         rw [← List.drop_append_of_le_length hjb, hcat, hY] at hn'
-        rw [no_match_in_pre hb _ hpre j hj] at hn'; simp at hn'
+        rw [no_match_in_pre hb Y hcn hpre.1 (fun e => hpre.2 (hc10 e)) j hj] at hn'; simp at hn'
     by_cases hlen : b.length ≤ pr.length
     · left
       constructor
@@ -1063,11 +1069,11 @@ theorem pre_search {bnd : Bytes} (hb : BoundaryOk bnd) (hpre : PreOk bnd pr lead
         have h2 := List.take_append_drop pr.length b
         rw [h1] at h2
         exact h2.symm
-      have hcat' : b.drop pr.length ++ fut = encBody bnd ep ps := by
-        have : (b ++ fut).drop pr.length = encBody bnd ep ps := by rw [hcat]; simp
+      have hcat' : b.drop pr.length ++ fut = encBody nl bnd ep ps := by
+        have : (b ++ fut).drop pr.length = encBody nl bnd ep ps := by rw [hcat]; simp
         rw [List.drop_append_of_le_length (by omega)] at this; exact this
       have hskip := searchDelim_skip (bnd := bnd) (o := true) b pr.length hnone
-      rcases crlf_core hb hcat' with ⟨hA, hB⟩
+      rcases first_delim_core hb hcat' with ⟨hA, hB⟩
       cases h0 : matchDelimAt bnd true (b.drop pr.length) with
       | none =>
         left
@@ -1092,61 +1098,68 @@ theorem pre_search {bnd : Bytes} (hb : BoundaryOk bnd) (hpre : PreOk bnd pr lead
     simp only [PreOk, Bool.false_eq_true, if_false] at hpre
     subst hpre
     simp only [bodyOf, Bool.false_eq_true, if_false, List.nil_append] at hcat
-    have hY : encBody bnd ep ps = 13 :: 10 :: (delim bnd ++ tailOf bnd ep ps) := encBody_eq bnd ps
-    rw [hY] at hcat
-    simp only [List.drop_succ_cons, List.drop_zero] at hcat
-    have hcat2 : (13 :: 10 :: b) ++ fut = encBody bnd ep ps := by rw [hY]; simp [hcat]
-    rcases crlf_core hb hcat2 with ⟨hA, hB⟩
-    -- the same match with and without the leading CRLF
-    have hrel : ∀ e f, matchDelimAt bnd true (13 :: 10 :: b) = some (e, f) →
-        matchDelimAt bnd true b = some (e - 2, f) ∧ 2 ≤ e := by
+    have hY : encBody nl bnd ep ps = nl.bytes ++ (delim bnd ++ tailOf nl bnd ep ps) := encBody_eq bnd ps
+    have hdropY : (encBody nl bnd ep ps).drop nl.len = delim bnd ++ tailOf nl bnd ep ps := by
+      rw [hY]; simp [Nl.len]
+    rw [hdropY] at hcat
+    have hcat2 : (nl.bytes ++ b) ++ fut = encBody nl bnd ep ps := by rw [hY, List.append_assoc, hcat]
+    rcases first_delim_core hb hcat2 with ⟨hA, hB⟩
+    have hlbb : lbLen (nl.bytes ++ b) = nl.len := by
+      cases b with
+      | nil => cases nl <;> simp [Nl.bytes, Nl.len, lbLen]
+      | cons x b' =>
+        have hx : x = 45 := by
+          simp [delim] at hcat; exact hcat.1
+        subst hx
+        exact Nl.lbLen_append b' (by decide)
+    -- the same match with and without the leading line break
+    have hrel : ∀ e f, matchDelimAt bnd true (nl.bytes ++ b) = some (e, f) →
+        matchDelimAt bnd true b = some (e - nl.len, f) ∧ nl.len ≤ e := by
       intro e f h
       rcases matchDelimAt_iff'.1 h with ⟨r, m, _, hd, hm, hn⟩
-      rw [lbLen_crlf] at hd hn
-      simp only [List.drop_succ_cons, List.drop_zero] at hd
-      have hl0 : lbLen b = 0 := by rw [hd]; exact lbLen_cons_not_nl (by decide)
-      exact ⟨matchDelimAt_iff'.2 ⟨r, m, by simp, by rw [hl0]; simpa using hd, hm, by rw [hl0]; omega⟩, by omega⟩
-    cases h0 : matchDelimAt bnd true (13 :: 10 :: b) with
+      rw [hlbb] at hd hn
+      have hd' : b = delim bnd ++ r := by simpa [Nl.len] using hd
+      have hl0 : lbLen b = 0 := by rw [hd']; exact lbLen_cons_not_nl (by decide)
+      exact ⟨matchDelimAt_iff'.2 ⟨r, m, by simp, by rw [hl0]; simpa using hd', hm, by rw [hl0]; omega⟩, by omega⟩
+    cases h0 : matchDelimAt bnd true (nl.bytes ++ b) with
     | none =>
       left
       rcases hA h0 with ⟨h1, h2⟩
-      refine ⟨?_, h2⟩
-      have := (searchDelim_cons_eq_none.1 h1).2
-      exact (searchDelim_cons_eq_none.1 this).2
+      exact ⟨searchDelim_none_of_nl_append h1, h2⟩
     | some v =>
       right
       rcases v with ⟨e, f⟩
       rcases hB e f h0 with ⟨hf, he0, hle, hbound, hnext⟩
       rcases hrel e f h0 with ⟨hm, he2⟩
       have hbounds := matchDelimAt_bounds_any hm
-      have hs0 : searchDelim bnd true b = some (0, e - 2, f) := by
+      have hs0 : searchDelim bnd true b = some (0, e - nl.len, f) := by
         cases hq : b with
         | nil => rw [hq] at hbounds; simp at hbounds; omega
         | cons a t => rw [hq] at hm; exact searchDelim_cons_some hm
-      refine ⟨e - 2, f, by simpa using hs0, hf, by simp; omega, hbounds.2, ?_, ?_⟩
+      refine ⟨e - nl.len, f, by simpa using hs0, hf, by simp; omega, hbounds.2, ?_, ?_⟩
       · intro h; have := hbound h; simp; omega
       · intro h
         rcases hnext h with ⟨lf, hl⟩
         refine ⟨lf, ?_⟩
         rw [← hl]
-        have : (13 :: 10 :: b).drop e = b.drop (e - 2) := by
-          have : e = (e - 2) + 2 := by omega
-          rw [this]; simp
-        rw [this]
+        have h3 := drop_add_append nl.bytes b (e - nl.len)
+        have h4 : e - nl.len + nl.bytes.length = e := by simp [Nl.len] at he2 ⊢; omega
+        rw [h4] at h3
+        rw [h3]
 
 theorem nextEvent_of_step' {d d' : Decoder} {ev : Event} (hc : d.complete = false)
     (h : step d = .ok (ev, d')) : nextEvent d = .ok (ev, d') := by
   unfold nextEvent; rw [h, hc]; simp
 
 /-- one `next_event` in the PREAMBLE phase, on any prefix of the body -/
-theorem step_pre {bnd : Bytes} (hb : BoundaryOk bnd) (hpre : PreOk bnd pr lead) {d : Decoder} {fut : Bytes}
-    {ps : List Part} (hg : Good bnd ep pr lead d fut (.pre ps)) :
-    (∃ d', nextEvent d = .ok (.needData, d') ∧ Good bnd ep pr lead d' fut (.pre ps) ∧ fut ≠ []) ∨
-    (∃ x d', nextEvent d = .ok (.preamble x, d') ∧ GoodNext bnd ep pr lead d' fut ps) := by
+theorem step_pre {bnd : Bytes} (hb : BoundaryOk bnd) (hpre : PreOk nl bnd pr lead) {d : Decoder} {fut : Bytes}
+    {ps : List Part} (hg : Good nl bnd ep pr lead d fut (.pre ps)) :
+    (∃ d', nextEvent d = .ok (.needData, d') ∧ Good nl bnd ep pr lead d' fut (.pre ps) ∧ fut ≠ []) ∨
+    (∃ x d', nextEvent d = .ok (.preamble x, d') ∧ GoodNext nl bnd ep pr lead d' fut ps) := by
   rcases hg with ⟨hpl, hst, hcat, b0, c0, hbc, hb0, hpos⟩
   have hpl' := hpl
   rcases hpl with ⟨hbn, hcomp, hmm, hmp⟩
-  have hps := pre_search (ep := ep) hb hpre hcat
+  have hps := pre_search (nl := nl) (ep := ep) hb hpre hcat
   -- the retained search position does not matter: the first delimiter is short
   have hpad : PadOk bnd (b0 ++ c0) := by
     rw [← hbc]
@@ -1197,10 +1210,10 @@ theorem step_pre {bnd : Bytes} (hb : BoundaryOk bnd) (hpre : PreOk bnd pr lead) 
 /-- a delimiter recognised in the buffer: it is the one that ends the part -/
 theorem decision_next {bnd : Bytes} (hb : BoundaryOk bnd) {d : Decoder} {fut pre : Bytes} {p : Part}
     {ps : List Part} (hpl : Plain bnd d) (hsp : d.searchPos = 0)
-    (hinv : DataInv bnd ep p ps pre d.buffer fut) {s1 e1 : Nat} {f1 : Bool}
+    (hinv : DataInv nl bnd ep p ps pre d.buffer fut) {s1 e1 : Nat} {f1 : Bool}
     (hs : searchDelim bnd false d.buffer = some (s1, e1, f1)) :
-    f1 = ps.isEmpty ∧ (pre ++ d.buffer.take s1).drop 2 = p.payload ∧
-      GoodNext bnd ep pr lead { d with buffer := d.buffer.drop e1, state := afterDelim f1 } fut ps := by
+    f1 = ps.isEmpty ∧ (pre ++ d.buffer.take s1).drop nl.len = p.payload ∧
+      GoodNext nl bnd ep pr lead { d with buffer := d.buffer.drop e1, state := afterDelim f1 } fut ps := by
   rcases hinv with ⟨s0, e0, h1, h2, h3⟩
   rcases searchDelim_append_stable hb hs fut with ⟨e1', hst, hrel⟩
   rw [h1] at hst
@@ -1232,9 +1245,9 @@ theorem decision_next {bnd : Bytes} (hb : BoundaryOk bnd) {d : Decoder} {fut pre
 
 /-- a hold-back release keeps the invariant -/
 theorem hold_next {bnd : Bytes} {pre buf fut : Bytes} {p : Part} {ps : List Part} {k : Nat}
-    (hinv : DataInv bnd ep p ps pre buf fut) (hk : k ≤ buf.length)
+    (hinv : DataInv nl bnd ep p ps pre buf fut) (hk : k ≤ buf.length)
     (hsafe : searchDelim bnd false (buf ++ fut) = shift k (searchDelim bnd false (buf.drop k ++ fut))) :
-    DataInv bnd ep p ps (pre ++ buf.take k) (buf.drop k) fut := by
+    DataInv nl bnd ep p ps (pre ++ buf.take k) (buf.drop k) fut := by
   rcases hinv with ⟨s0, e0, h1, h2, h3⟩
   rw [h1] at hsafe
   rcases shift_eq_some hsafe.symm with ⟨s2, e2, hs2, rfl, rfl⟩
@@ -1272,10 +1285,10 @@ theorem nextEvent_of_step {d d' : Decoder} {ev : Event} (hc : d.complete = false
 
 /-- one `next_event` in the DATA phase, on any prefix of the stream -/
 theorem step_dataM {bnd : Bytes} (hb : BoundaryOk bnd) {d : Decoder} {fut : Bytes} {p : Part}
-    {ps : List Part} {E : Bytes} (hg : Good bnd ep pr lead d fut (.dataM p ps E)) :
-    (∃ d', nextEvent d = .ok (.needData, d') ∧ Good bnd ep pr lead d' fut (.dataM p ps E) ∧ fut ≠ []) ∨
-    (∃ x d', nextEvent d = .ok (.data x true, d') ∧ Good bnd ep pr lead d' fut (.dataM p ps (E ++ x))) ∨
-    (∃ x d', E ++ x = p.payload ∧ nextEvent d = .ok (.data x false, d') ∧ GoodNext bnd ep pr lead d' fut ps) := by
+    {ps : List Part} {E : Bytes} (hg : Good nl bnd ep pr lead d fut (.dataM p ps E)) :
+    (∃ d', nextEvent d = .ok (.needData, d') ∧ Good nl bnd ep pr lead d' fut (.dataM p ps E) ∧ fut ≠ []) ∨
+    (∃ x d', nextEvent d = .ok (.data x true, d') ∧ Good nl bnd ep pr lead d' fut (.dataM p ps (E ++ x))) ∨
+    (∃ x d', E ++ x = p.payload ∧ nextEvent d = .ok (.data x false, d') ∧ GoodNext nl bnd ep pr lead d' fut ps) := by
   rcases hg with ⟨hpl, hst, hsp, pre, hE, hpre2, hinv⟩
   have hpl' := hpl
   rcases hpl with ⟨hbn, hcomp, hmm, hmp⟩
@@ -1326,11 +1339,11 @@ theorem step_dataM {bnd : Bytes} (hb : BoundaryOk bnd) {d : Decoder} {fut : Byte
 
 /-- one `next_event` in the DATA_START phase, on any prefix of the stream -/
 theorem step_dataS {bnd : Bytes} (hb : BoundaryOk bnd) {d : Decoder} {fut : Bytes} {p : Part}
-    {ps : List Part} (hg : Good bnd ep pr lead d fut (.dataS p ps)) :
+    {ps : List Part} (hg : Good nl bnd ep pr lead d fut (.dataS p ps)) :
     (nextEvent d = .ok (.needData, d) ∧ fut ≠ []) ∨
-    (∃ x d', nextEvent d = .ok (.data x true, d') ∧ Good bnd ep pr lead d' fut (.dataM p ps x)) ∨
-    (∃ d', nextEvent d = .ok (.data p.payload false, d') ∧ GoodNext bnd ep pr lead d' fut ps) := by
-  rcases hg with ⟨hpl, hst, hsp, hlb, ⟨Z, hZ⟩, hinv⟩
+    (∃ x d', nextEvent d = .ok (.data x true, d') ∧ Good nl bnd ep pr lead d' fut (.dataM p ps x)) ∨
+    (∃ d', nextEvent d = .ok (.data p.payload false, d') ∧ GoodNext nl bnd ep pr lead d' fut ps) := by
+  rcases hg with ⟨hpl, hst, hsp, hlb, hZ, hinv⟩
   have hpl' := hpl
   rcases hpl with ⟨hbn, hcomp, hmm, hmp⟩
   cases hs : searchDelim bnd false d.buffer with
@@ -1340,7 +1353,8 @@ theorem step_dataS {bnd : Bytes} (hb : BoundaryOk bnd) {d : Decoder} {fut : Byte
     rcases decision_next hb hpl' hsp hinv hs with ⟨hf, hpay, hnext⟩
     have hbd := searchDelim_bounds hs
     have he0 : e1 ≠ 0 := by omega
-    have hlb2 : lbLen d.buffer = 2 := lbLen_of_crlf_prefix hZ (searchDelim_some_two_le hs)
+    have hlb2 : lbLen d.buffer = nl.len := by
+      rw [← hZ, lbLen_append_of_two_le fut (searchDelim_some_two_le hs)]
     refine ⟨{ d with buffer := d.buffer.drop e1, state := afterDelim f1 }, ?_, hnext⟩
     apply nextEvent_of_step hcomp
     unfold step
@@ -1367,10 +1381,10 @@ theorem step_dataS {bnd : Bytes} (hb : BoundaryOk bnd) {d : Decoder} {fut : Byte
         rw [hfe, List.append_nil, hs] at h1; simp at h1
     · right; left
       have hlbk := lb_le_hold hlb (by omega) hkk
-      have hlb2 : lbLen d.buffer = 2 := by
-        rw [← hlbk.2 fut, hZ]; exact lbLen_crlf Z
+      have hlb2 : lbLen d.buffer = nl.len := by
+        rw [← hlbk.2 fut, hZ]
       have hinv' := hold_next hinv hkle (hsafe fut)
-      refine ⟨(d.buffer.take k).drop 2, { d with buffer := d.buffer.drop k, state := .data }, ?_, ?_⟩
+      refine ⟨(d.buffer.take k).drop nl.len, { d with buffer := d.buffer.drop k, state := .data }, ?_, ?_⟩
       · apply nextEvent_of_step hcomp
         unfold step
         rw [hst]
@@ -1379,10 +1393,11 @@ theorem step_dataS {bnd : Bytes} (hb : BoundaryOk bnd) {d : Decoder} {fut : Byte
         simp
       · refine ⟨hpl', rfl, hsp, d.buffer.take k, rfl, ?_, ?_⟩
         · have := hlbk.1
+          rw [hlb2] at this
           simp [List.length_take]; omega
         · simpa using hinv'
 
-theorem step_epi {bnd : Bytes} {d : Decoder} {fut : Bytes} (hg : Good bnd ep pr lead d fut .epi) :
+theorem step_epi {bnd : Bytes} {d : Decoder} {fut : Bytes} (hg : Good nl bnd ep pr lead d fut .epi) :
     nextEvent d = .ok (.needData, d) := by
   rcases hg with ⟨⟨_, hcomp, _, _⟩, hst⟩
   apply nextEvent_of_step hcomp
@@ -1427,14 +1442,14 @@ theorem Acct.trans {a b c : Phase} {e1 e2 : List Event} (h1 : Acct a b e1) (h2 :
   · rw [hx1, hx2, List.append_assoc]
 
 /-- the parts of a phase are valid -/
-def PhaseValid (bnd : Bytes) : Phase → Prop
-  | .pre ps => ∀ q ∈ ps, ValidPart bnd q
-  | .hdr _ p ps => ValidPart bnd p ∧ ∀ q ∈ ps, ValidPart bnd q
-  | .dataS p ps => ValidPart bnd p ∧ ∀ q ∈ ps, ValidPart bnd q
-  | .dataM p ps _ => ValidPart bnd p ∧ ∀ q ∈ ps, ValidPart bnd q
+def PhaseValid (nl : Nl) (bnd : Bytes) : Phase → Prop
+  | .pre ps => ∀ q ∈ ps, ValidPart nl bnd q
+  | .hdr _ p ps => ValidPart nl bnd p ∧ ∀ q ∈ ps, ValidPart nl bnd q
+  | .dataS p ps => ValidPart nl bnd p ∧ ∀ q ∈ ps, ValidPart nl bnd q
+  | .dataM p ps _ => ValidPart nl bnd p ∧ ∀ q ∈ ps, ValidPart nl bnd q
   | .epi => True
 
-theorem acct_head {bnd : Bytes} {lf : Bool} {p : Part} {ps : List Part} (hv : ValidPart bnd p) :
+theorem acct_head {bnd : Bytes} {lf : Bool} {p : Part} {ps : List Part} (hv : ValidPart nl bnd p) :
     Acct (.hdr lf p ps) (.dataS p ps) [partHeadEvent (decodedPart p)] := by
   intro cur _
   have hf := validPart_facts hv
@@ -1580,7 +1595,7 @@ theorem facct_pre {ps : List Part} {ph' : Phase} (x : Bytes) (hn : nextPhaseOk p
     rcases hn with ⟨lf, rfl⟩
     exact ⟨st, trivial, fun rest => by simp [formEvents_cons, formEvent], rfl⟩
 
-theorem facct_head {bnd : Bytes} {lf : Bool} {p : Part} {ps : List Part} (hv : ValidPart bnd p) :
+theorem facct_head {bnd : Bytes} {lf : Bool} {p : Part} {ps : List Part} (hv : ValidPart nl bnd p) :
     FAcct (.hdr lf p ps) (.dataS p ps) [partHeadEvent (decodedPart p)] := by
   intro st _
   left
@@ -1663,8 +1678,8 @@ theorem facct_last {p : Part} {ps : List Part} {ph ph' : Phase} {E x : Bytes}
       · simp only; rw [hnext]; rfl
 
 theorem goodNext_phase {bnd : Bytes} {d : Decoder} {fut : Bytes} {ps : List Part}
-    (h : GoodNext bnd ep pr lead d fut ps) (hv : ∀ q ∈ ps, ValidPart bnd q) :
-    ∃ ph', Good bnd ep pr lead d fut ph' ∧ PhaseValid bnd ph' ∧ nextPhaseOk ph' ps := by
+    (h : GoodNext nl bnd ep pr lead d fut ps) (hv : ∀ q ∈ ps, ValidPart nl bnd q) :
+    ∃ ph', Good nl bnd ep pr lead d fut ph' ∧ PhaseValid nl bnd ph' ∧ nextPhaseOk ph' ps := by
   cases ps with
   | nil => exact ⟨.epi, h, trivial, rfl⟩
   | cons p' ps' =>
@@ -1682,10 +1697,10 @@ theorem shrink_step {d d1 : Decoder} {ev : Event} {n : Nat} (hn : nextEvent d = 
 /-- **draining keeps the run on track**: from any good configuration, `drain` delivers events that
 account for the expected parts and stops in a good configuration; when nothing more is to come it
 stops after the closing delimiter. -/
-theorem drain_good {bnd : Bytes} (hb : BoundaryOk bnd) (hpre : PreOk bnd pr lead) (fut : Bytes) :
+theorem drain_good {bnd : Bytes} (hb : BoundaryOk bnd) (hpre : PreOk nl bnd pr lead) (fut : Bytes) :
     ∀ (n : Nat) (d : Decoder) (ph : Phase) (acc : List Event), d.buffer.length ≤ n →
-      Good bnd ep pr lead d fut ph → PhaseValid bnd ph →
-      ∃ evs d' ph', DrainsOk d acc evs d' ∧ Good bnd ep pr lead d' fut ph' ∧ PhaseValid bnd ph' ∧ Acct ph ph' evs ∧
+      Good nl bnd ep pr lead d fut ph → PhaseValid nl bnd ph →
+      ∃ evs d' ph', DrainsOk d acc evs d' ∧ Good nl bnd ep pr lead d' fut ph' ∧ PhaseValid nl bnd ph' ∧ Acct ph ph' evs ∧
         FAcct ph ph' evs ∧ (fut = [] → ph' = .epi) := by
   intro n
   induction n with
@@ -1776,8 +1791,8 @@ theorem drain_good {bnd : Bytes} (hb : BoundaryOk bnd) (hpre : PreOk bnd pr lead
 /-! ### chunk after chunk -/
 
 theorem good_receive {bnd : Bytes} {d : Decoder} {c fut : Bytes} {ph : Phase}
-    (hg : Good bnd ep pr lead d (c ++ fut) ph) :
-    ∃ d1, receive d (some c) = .ok d1 ∧ Good bnd ep pr lead d1 fut ph := by
+    (hg : Good nl bnd ep pr lead d (c ++ fut) ph) :
+    ∃ d1, receive d (some c) = .ok d1 ∧ Good nl bnd ep pr lead d1 fut ph := by
   have hpl : Plain bnd d := by cases ph <;> exact hg.1
   rcases hpl with ⟨hbn, hcomp, hmm, hmp⟩
   refine ⟨{ d with buffer := d.buffer ++ c }, by simp [receive, hmm], ?_⟩
@@ -1790,9 +1805,9 @@ theorem good_receive {bnd : Bytes} {d : Decoder} {c fut : Bytes} {ph : Phase}
     rcases hg with ⟨_, hst, hcat, b0, c0, hbc, hb0, hpos⟩
     exact ⟨⟨hbn, hcomp, hmm, hmp⟩, hst, by simpa using hcat, b0, c0 ++ c, by simp [hbc], hb0, hpos⟩
   | dataS p ps =>
-    rcases hg with ⟨_, hst, hsp, hlb, ⟨Z, hZ⟩, hinv⟩
+    rcases hg with ⟨_, hst, hsp, hlb, hZ, hinv⟩
     refine ⟨⟨hbn, hcomp, hmm, hmp⟩, hst, hsp, Nat.lt_of_lt_of_le hlb (lbLen_append_ge _ _),
-      ⟨Z, by simpa using hZ⟩, ?_⟩
+      by simpa using hZ, ?_⟩
     rcases hinv with ⟨s0, e0, h1, h2, h3⟩
     exact ⟨s0, e0, by simpa using h1, by simpa using h2, by simpa using h3⟩
   | dataM p ps E =>
@@ -1801,7 +1816,7 @@ theorem good_receive {bnd : Bytes} {d : Decoder} {c fut : Bytes} {ph : Phase}
     rcases hinv with ⟨s0, e0, h1, h2, h3⟩
     exact ⟨s0, e0, by simpa using h1, by simpa using h2, by simpa using h3⟩
 
-theorem feed_none_epi {bnd : Bytes} {d : Decoder} (hg : Good bnd ep pr lead d [] .epi) :
+theorem feed_none_epi {bnd : Bytes} {d : Decoder} (hg : Good nl bnd ep pr lead d [] .epi) :
     feed d none = { events := [.epilogue d.buffer], err := none,
                     dec := { d with complete := true, buffer := [], state := .complete } } := by
   rcases hg with ⟨⟨_, hcomp, _, _⟩, hst⟩
@@ -1810,8 +1825,8 @@ theorem feed_none_epi {bnd : Bytes} {d : Decoder} (hg : Good bnd ep pr lead d []
     simp [nextEvent, step, hst]
   simp [feed, receive, drainFuel, drain_succ, hn]
 
-theorem feedAll_good {bnd : Bytes} (hb : BoundaryOk bnd) (hpre : PreOk bnd pr lead) (chunks : List Bytes) :
-    ∀ (d : Decoder) (ph : Phase), Good bnd ep pr lead d chunks.flatten ph → PhaseValid bnd ph →
+theorem feedAll_good {bnd : Bytes} (hb : BoundaryOk bnd) (hpre : PreOk nl bnd pr lead) (chunks : List Bytes) :
+    ∀ (d : Decoder) (ph : Phase), Good nl bnd ep pr lead d chunks.flatten ph → PhaseValid nl bnd ph →
       (chunks.flatten = [] → ph = .epi) → ∀ cur, CurOk ph cur →
       (feedAll d chunks).err = none ∧ partsGo cur (feedAll d chunks).events = Exp ph cur := by
   induction chunks with
@@ -1834,59 +1849,61 @@ theorem feedAll_good {bnd : Bytes} (hb : BoundaryOk bnd) (hpre : PreOk bnd pr le
     simp only [feedAll, hfeed]
     exact ⟨herr, by rw [hp, hparts, hx]⟩
 
-theorem preOk_trivial (bnd : Bytes) : PreOk bnd [] true := by
+theorem preOk_trivial (nl : Nl) (bnd : Bytes) : PreOk nl bnd [] true := by
   simp [PreOk, containsSub, delim]
 
-theorem bodyOf_nonempty (bnd ep pr : Bytes) (lead : Bool) (ps : List Part) : bodyOf bnd ep pr lead ps ≠ [] := by
+theorem bodyOf_nonempty (nl : Nl) (bnd ep pr : Bytes) (lead : Bool) (ps : List Part) : bodyOf nl bnd ep pr lead ps ≠ [] := by
   unfold bodyOf
   rw [encBody_eq]
-  cases lead <;> simp [delim]
+  cases lead
+  · simp [delim, Nl.len]
+  · simp [delim]
 
 /-- **chunk independence on encoder output, from the first header block on** -/
 theorem decode_chunks_lemma {bnd : Bytes} (hb : BoundaryOk bnd) (ps : List Part)
-    (hv : ∀ p ∈ ps, ValidPart bnd p) (chunks : List Bytes) (hjoin : chunks.flatten = afterOf bnd ep ps) :
+    (hv : ∀ p ∈ ps, ValidPart nl bnd p) (chunks : List Bytes) (hjoin : chunks.flatten = afterOf nl bnd ep ps) :
     (feedAll (mkD bnd [] (afterDelim ps.isEmpty) 0) chunks).err = none ∧
     partsOf (feedAll (mkD bnd [] (afterDelim ps.isEmpty) 0) chunks).events = ps.map decodedPart := by
   cases ps with
   | nil =>
-    have hg : Good bnd ep [] true (mkD bnd [] (afterDelim ([] : List Part).isEmpty) 0) chunks.flatten .epi :=
+    have hg : Good nl bnd ep [] true (mkD bnd [] (afterDelim ([] : List Part).isEmpty) 0) chunks.flatten .epi :=
       ⟨⟨rfl, rfl, rfl, rfl⟩, rfl⟩
-    have := feedAll_good hb (preOk_trivial bnd) chunks _ .epi hg trivial (fun _ => rfl) none trivial
+    have := feedAll_good hb (preOk_trivial nl bnd) chunks _ .epi hg trivial (fun _ => rfl) none trivial
     simpa [partsOf, Exp] using this
   | cons p ps =>
-    have hg : Good bnd ep [] true (mkD bnd [] (afterDelim (p :: ps).isEmpty) 0) chunks.flatten
+    have hg : Good nl bnd ep [] true (mkD bnd [] (afterDelim (p :: ps).isEmpty) 0) chunks.flatten
         (.hdr false p ps) := by
       refine ⟨⟨rfl, rfl, rfl, rfl⟩, rfl, by simp [mkD, lfPre, hjoin], [], [], rfl, by simp [searchBlank], by simp [mkD]⟩
     have hne : chunks.flatten = [] → Phase.hdr false p ps = .epi := by
       intro h0
       rw [hjoin] at h0
-      rcases hdrBlock_head (nameOf p) p with ⟨r, hr⟩
+      rcases hdrBlock_head nl (nameOf p) p with ⟨r, hr⟩
       rw [afterOf_cons, hr] at h0
       simp at h0
-    have := feedAll_good hb (preOk_trivial bnd) chunks _ (.hdr false p ps) hg
+    have := feedAll_good hb (preOk_trivial nl bnd) chunks _ (.hdr false p ps) hg
       ⟨hv p (by simp), fun q hq => hv q (by simp [hq])⟩ hne none trivial
     simpa [partsOf, Exp] using this
 
 /-- **chunk independence from the first byte, with preamble and epilogue** -/
-theorem decode_chunks_full_lemma {bnd : Bytes} (hb : BoundaryOk bnd) (hpre : PreOk bnd pr lead)
-    (ps : List Part) (hv : ∀ p ∈ ps, ValidPart bnd p) (chunks : List Bytes)
-    (hjoin : chunks.flatten = bodyOf bnd ep pr lead ps) :
+theorem decode_chunks_full_lemma {bnd : Bytes} (hb : BoundaryOk bnd) (hpre : PreOk nl bnd pr lead)
+    (ps : List Part) (hv : ∀ p ∈ ps, ValidPart nl bnd p) (chunks : List Bytes)
+    (hjoin : chunks.flatten = bodyOf nl bnd ep pr lead ps) :
     (decodeChunks bnd none none chunks).err = none ∧
     partsOf (decodeChunks bnd none none chunks).events = ps.map decodedPart := by
-  have hg : Good bnd ep pr lead (mkDecoder bnd none none) chunks.flatten (.pre ps) :=
+  have hg : Good nl bnd ep pr lead (mkDecoder bnd none none) chunks.flatten (.pre ps) :=
     ⟨⟨rfl, rfl, rfl, rfl⟩, rfl, by simp [mkDecoder, hjoin], [], [], rfl, by simp [searchDelim],
       by simp [mkDecoder]⟩
   have hne : chunks.flatten = [] → Phase.pre ps = .epi := by
     intro h0
     rw [hjoin] at h0
-    exact absurd h0 (bodyOf_nonempty bnd ep pr lead ps)
+    exact absurd h0 (bodyOf_nonempty nl bnd ep pr lead ps)
   have := feedAll_good hb hpre chunks _ (.pre ps) hg hv hne none trivial
   simpa [partsOf, Exp, decodeChunks] using this
 
 /-! ### one level up: `MultiPartParser.parse` over any read schedule -/
 
-theorem formLoop_good {bnd : Bytes} (hb : BoundaryOk bnd) (hpre : PreOk bnd pr lead) (chunks : List Bytes) :
-    ∀ (d : Decoder) (ph : Phase) (st : FormState), Good bnd ep pr lead d chunks.flatten ph → PhaseValid bnd ph →
+theorem formLoop_good {bnd : Bytes} (hb : BoundaryOk bnd) (hpre : PreOk nl bnd pr lead) (chunks : List Bytes) :
+    ∀ (d : Decoder) (ph : Phase) (st : FormState), Good nl bnd ep pr lead d chunks.flatten ph → PhaseValid nl bnd ph →
       (chunks.flatten = [] → ph = .epi) → CurOkF ph st →
       (formLoop none d st (chunks.map some ++ [none])).map outOf = ExpF ph st := by
   induction chunks with
@@ -1935,20 +1952,20 @@ theorem readChunks_flatten (bufSize : Nat) : ∀ (fuel : Nat) (sched : List Nat)
         omega
 
 /-- **the form parser**: fields and files for every buffer size and read schedule -/
-theorem formParse_lemma {bnd : Bytes} (hb : BoundaryOk bnd) (hpre : PreOk bnd pr lead) (ps : List Part)
-    (hv : ∀ p ∈ ps, ValidPart bnd p) (bufSize : Nat) (sched : List Nat) :
-    formParse bnd none none bufSize sched (bodyOf bnd ep pr lead ps) =
+theorem formParse_lemma {bnd : Bytes} (hb : BoundaryOk bnd) (hpre : PreOk nl bnd pr lead) (ps : List Part)
+    (hv : ∀ p ∈ ps, ValidPart nl bnd p) (bufSize : Nat) (sched : List Nat) :
+    formParse bnd none none bufSize sched (bodyOf nl bnd ep pr lead ps) =
       formOfParts ([], []) (ps.map decodedPart) := by
-  generalize hB : bodyOf bnd ep pr lead ps = body
+  generalize hB : bodyOf nl bnd ep pr lead ps = body
   have hfl := readChunks_flatten bufSize body.length sched body (Nat.le_refl _)
-  have hg : Good bnd ep pr lead (mkDecoder bnd none none)
+  have hg : Good nl bnd ep pr lead (mkDecoder bnd none none)
       (readChunks bufSize body.length sched body).flatten (.pre ps) :=
     ⟨⟨rfl, rfl, rfl, rfl⟩, rfl, by simp [mkDecoder, hfl, hB], [], [], rfl, by simp [searchDelim],
       by simp [mkDecoder]⟩
   have hne : (readChunks bufSize body.length sched body).flatten = [] → Phase.pre ps = .epi := by
     intro h0
     rw [hfl, ← hB] at h0
-    exact absurd h0 (bodyOf_nonempty bnd ep pr lead ps)
+    exact absurd h0 (bodyOf_nonempty nl bnd ep pr lead ps)
   have := formLoop_good hb hpre _ _ (.pre ps) {} hg hv hne trivial
   unfold formParse
   simp only
